@@ -7,8 +7,8 @@ package main
 // (the C19 obligation is then reported broken).
 
 import (
-	"fmt"
 	"bytes"
+	"fmt"
 	"go/ast"
 	"go/parser"
 	"go/printer"
